@@ -119,6 +119,16 @@ def model(spec, pairs):
     return [pairs[i] for i in idx]
 
 
+LINES = [7, 3, None, 5, 1, None, 9, 2]
+
+
+def relabel_lines(entry):
+    """'Source order' is the order of the field list; recorded line numbers need not follow it (fields added or
+    moved after parsing, entries merged from several files)."""
+    from bibtexparser.model import Field
+    entry.fields = [Field(f.key, f.value, LINES[i % len(LINES)]) for i, f in enumerate(entry.fields)]
+
+
 def check_pipe(case, ctx):
     """The entry passes through several of the middlewares in a row (re-used instances, in place and in copy
     mode); after every step the fields must equal the model folded over the steps so far."""
@@ -127,6 +137,7 @@ def check_pipe(case, ctx):
     out = []
     for inplace in (False, True):
         lib = build.library([["entry", "Article", "TheKey", [list(p) for p in pairs], "raw text", 3], ["icomment", "c"]])
+        relabel_lines(lib.blocks[0])
         want = list(pairs)
         for step, spec in enumerate(pipe):
             st, lib2 = sp.escape(lambda: make_mw(spec, inplace).transform(lib))
@@ -170,6 +181,7 @@ def check(case, ctx):
         specs = [["string", "s", "{sv}"], ["entry", "Article", "TheKey", [list(p) for p in pairs], "raw text", 3],
                  ["preamble", "p"], ["entry", "book", "other", []], ["icomment", "c"]]
         lib = build.library(specs)
+        relabel_lines(lib.blocks[1])
         others_before = [fp(b) for i, b in enumerate(lib.blocks) if i in (0, 2, 4)]
         st, res = sp.escape(lambda: mw.transform(lib))
         ctx.ran()
